@@ -180,7 +180,7 @@ def run(ctx: Ctx) -> None:
         ctx.evaluations += len(bits)
         ctx.bump(f"E{E}", len(bits))
         model_jobs.append((E, M, bits, yb))
-    ctx._distinct.update(range(total))  # every (format, pattern) pair is distinct by construction (np.unique)
+    ctx.distinct_extra += total  # every (format, pattern) pair is distinct by construction (np.unique)
     ctx.samples = [{"E": 4, "M": 3, "x_bits": int(model_jobs[0][2][5])}] if model_jobs else []
 
     # ---- tensors of rank 0-3, empty, non-contiguous, four dtypes
@@ -270,5 +270,6 @@ def run(ctx: Ctx) -> None:
                 if isum != ms[b]:
                     ctx.disagree("quantise_bits_exhaustive", {"E": E, "M": M, "block": b, "lo": b * size}, ms[b], isum, THMS)
             ctx.evaluations += (1 << 32) - 2 * ((1 << 23) - 1)
+            ctx.distinct_extra += (1 << 32) - 2 * ((1 << 23) - 1)
             ctx.extra[f"exhaustive_E{E}M{M}"] = "all 2^32 float32 patterns (NaNs excluded) compared by block checksum"
         ctx.exhaustive = True
